@@ -13,6 +13,9 @@ history (`List Op`, no bound) and every instant.
 -/
 import EdzedModel.Persist
 import EdzedProofs.Persist
+import EdzedModel.Gen.TranslatedPersist
+import Mathlib.Tactic.NormNum
+import Mathlib.Tactic.Linarith
 
 namespace Edzed.Persist
 
@@ -441,3 +444,47 @@ example :
   decide +kernel
 
 end Edzed.Persist
+
+/-! ### the translation tie: the decision of `init_from_persistent_data` -/
+namespace Edzed.TrTie
+open Edzed
+
+/-- `_restore_state` is called exactly when the entry was found and the model's expiration test says
+    "not expired" (the model counts integer microseconds, the code float seconds: the comparison is the
+    same linear one); a failing storage and a missing entry restore nothing -/
+theorem translated_restore_decision_is_model (expiration : Option Int) (ts : Option Nat) (now : Nat)
+    (lookup : Gen.TrP.Lookup) :
+    (Gen.TrP.Prim.restore ∈ Gen.TrP.restoreActs lookup
+        (expiration.map (fun x => (x : Rat))) (ts.map (fun t => (t : Rat))) (now : Rat))
+      ↔ (lookup = .found ∧ Persist.expired expiration ts now = false) := by
+  unfold Gen.TrP.restoreActs Persist.expired
+  cases lookup <;> cases expiration <;> cases ts <;> simp
+  · rename_i x
+    by_cases h : x ≤ 0 <;> simp [h]; omega
+  · rename_i x t
+    by_cases h : x ≤ 0
+    · simp [h]
+    · simp only [h, ↓reduceIte]
+      have hx : 0 < x := by omega
+      by_cases h2 : ((t : Rat) + (x : Rat) < (now : Rat))
+      · simp only [h2, ↓reduceIte]
+        have : (t : Int) + x < (now : Int) := by exact_mod_cast h2
+        simp; intro _; omega
+      · simp only [h2, ↓reduceIte]
+        have : ¬ ((t : Int) + x < (now : Int)) := fun h' => h2 (by exact_mod_cast h')
+        simp; exact ⟨hx, by omega⟩
+
+/-- the model's `load` restores only under that decision -/
+theorem load_only_if_translated_decision (b : Persist.Blk) (store : Persist.Storage) (ts : Option Nat)
+    (cal : Val → Option Bool) (now : Nat) (d : Persist.Dyn) (h : Persist.load b store ts cal now = some d) :
+    Gen.TrP.Prim.restore ∈ Gen.TrP.restoreActs .found
+      (b.expiration.map (fun x => (x : Rat))) (ts.map (fun t => (t : Rat))) (now : Rat) := by
+  rw [translated_restore_decision_is_model]
+  refine ⟨rfl, ?_⟩
+  unfold Persist.load at h
+  cases hp : b.persistent <;> simp [hp] at h
+  cases hs : store.get? b.key <;> simp [hs] at h
+  cases he : Persist.expired b.expiration ts now <;> simp [he] at h
+  rfl
+
+end Edzed.TrTie
